@@ -40,7 +40,7 @@ RectCat == { <<1,1,6,5,-1,-1>>, <<4,3,7,7,-1,-1>>, <<8,2,6,9,-1,-1>>, <<2,8,10,5
              <<3,3,8,8,2,-1>>, <<5,1,4,12,-1,-1>> }
 CircleCat == { <<6,6,4>>, <<9,9,5>>, <<4,10,3>> }
 EllipseCat == { <<9,8,5,3>>, <<6,7,2,6>> }
-PolyCat == { <<2,2, 12,3, 5,11>>, <<2,2, 10,10, 10,2, 2,10>>, <<8,1, 15,8, 8,15, 1,8>>,
+PolyCat == { <<1,1, 15,3, 1,5>>, <<2,2, 12,3, 5,11>>, <<2,2, 10,10, 10,2, 2,10>>, <<8,1, 15,8, 8,15, 1,8>>,
              <<1,1, 9,1, 9,9, 1,9>> }
 (* path data as exploded command lists; polygonal, some relative, some multi-contour *)
 PathCat == {
@@ -80,7 +80,7 @@ Opt(i, name, S, p) == IF MaybeN(3 * i, p) THEN << <<name, PickN(3 * i + 1, S), I
 PaintAttrs(n_) ==
      Opt(107, "fill", Colors \cup {"none", "black"}, IF Focus \in {"paint", "mixed"} THEN 60 ELSE 45)
   \o Opt(108, "fill-opacity", {0, 1, 2, -1}, IF Focus = "paint" THEN 35 ELSE 8)
-  \o Opt(109, "opacity", IF Focus \in {"paint", "mixed"} /\ MaybeN(109 + 900, 12) THEN {-2, -3, -4} ELSE {0, 1, 2, 1, 2, -1}, IF Focus = "paint" THEN 45 ELSE 12)
+  \o Opt(109, "opacity", IF Focus \in {"paint", "mixed"} /\ MaybeN(109 + 900, 12) THEN {-2, -3, -4} ELSE IF Focus = "mixed" THEN {0, 1, 2, 10, 11, 12, -1} ELSE {0, 1, 2, 1, 2, -1}, IF Focus = "paint" THEN 45 ELSE 12)
   \o Opt(110, "fill-rule", {"nonzero", "evenodd"}, 25)
   \o Opt(111, "display", {"none", "inline"}, IF Focus = "paint" THEN 10 ELSE 4)
 
@@ -91,7 +91,7 @@ StrokeAttrs(n_) ==
     \o Opt(115, "stroke-linecap", {"butt", "round", "square"}, 45)
     \o Opt(116, "stroke-linejoin", {"miter", "round", "bevel"}, 45)
     \o Opt(117, "stroke-miterlimit", {1, 4, 10}, 20)
-    \o Opt(118, "stroke-dasharray", { <<2>>, <<2, 1>>, <<3, 1, 1>>, <<1, 1, 2, 2>>, <<>> }, IF Focus = "stroke" THEN 45 ELSE 30)
+    \o Opt(118, "stroke-dasharray", { <<2>>, <<2, 1>>, <<3, 1, 1>>, <<1, 1, 2, 2>>, <<>>, <<2, 0>>, <<0, 2>> }, IF Focus = "stroke" THEN 45 ELSE 30)
     \o Opt(119, "stroke-dashoffset", {0, 1, -1, 5}, IF Focus = "stroke" THEN 45 ELSE 20)
     \o Opt(120, "stroke-opacity", {0, 1, 2, -1}, 20)
 
@@ -181,7 +181,7 @@ AddUse ==
   /\ LET targets == Ids(ShapeTags \cup {"g", "use"}) \ OpenIds
      IN /\ targets # {}
         /\ Push([d |-> Depth, tag |-> "use", id |-> IF MaybeN(142, 20) THEN NewId ELSE "",
-                 at |-> (IF InClip THEN <<>> ELSE PaintAttrs(Len(nodes)) \o ClipAttr) \o TfAttr(Len(nodes)),
+                 at |-> (IF InClip THEN <<>> ELSE PaintAttrs(Len(nodes)) \o StrokeAttrs(Len(nodes) + 50) \o ClipAttr) \o TfAttr(Len(nodes)),
                  g |-> IF MaybeN(143, 50) THEN <<0, 0>> ELSE <<PickN(144, {-2, 3, 5}), PickN(145, {0, 1, 4})>>,
                  ref |-> PickN(146, targets)])
 
